@@ -1,5 +1,5 @@
 //@ unit U-CONSOLIDATE
-//@ props C10
+//@ props C10 C19
 //@ verus-args --rlimit 100
 //@ rules-from consolidate
 #![allow(non_snake_case, unused)]
@@ -32,6 +32,47 @@ spec fn inputs_wf(dir: VxPath, s: Shards) -> bool {
     // configuration/size domain: keeps the u64 size additions of the grouping loop from overflowing
     &&& forall|i: int| 0 <= i < s.len() ==> (#[trigger] s[i]).shard.size < 0x8000_0000_0000_0000
     &&& forall|i: int, j: int| 0 <= i < j < s.len() ==> (#[trigger] s[i]).shard_hash != (#[trigger] s[j]).shard_hash
+}
+
+// the file under each loaded handle's (hash) name holds the shard with that hash
+spec fn loaded_content(s: Shards, content: Map<VxPath, Set<int>>) -> bool {
+    forall|j: int| 0 <= j < s.len() ==> content[(#[trigger] s[j]).path] == recs_of(s[j].shard_hash)
+}
+// files <-> records: every input file still on disk and every returned file holds the records of its hash
+spec fn cont_ok(s: Shards, fin: Shards, exists_: Set<VxPath>, content: Map<VxPath, Set<int>>) -> bool {
+    &&& forall|i: int| 0 <= i < s.len() && exists_.contains((#[trigger] s[i]).path) ==> content[s[i].path] == recs_of(s[i].shard_hash)
+    &&& forall|k: int| 0 <= k < fin.len() ==> content[(#[trigger] fin[k]).path] == recs_of(fin[k].shard_hash)
+}
+// the precondition of `remove_file` for a group member, from `mid`: the returned shard that covers it is another existing file
+proof fn lemma_remove_pre(dir: VxPath, s: Shards, fin: Shards, hashes: Set<MerkleHash>, fs: VxFs, cur: int, ub: int, removed0: Set<VxPath>, g: int)
+    requires
+        inputs_wf(dir, s), mid(dir, s, fin, hashes, fs.exists@, fs.removed@, cur, ub, removed0), cont_ok(s, fin, fs.exists@, fs.content@),
+        cur <= g < ub, !hashes.contains(s[g].shard_hash), fs.exists@.contains(s[g].path),
+    ensures covered_elsewhere(fs, s[g].path),
+{
+    assert(covered(s[g].shard_hash, fin));
+    let k = choose|k: int| 0 <= k < fin.len() && recs_of(s[g].shard_hash).subset_of(recs_of((#[trigger] fin[k]).shard_hash));
+    axiom_path_of_injective(dir, fin[k].shard_hash, s[g].shard_hash);
+    let p2 = fin[k].path;
+    assert(p2 != s[g].path && fs.exists@.contains(p2) && fs.content@[s[g].path].subset_of(fs.content@[p2]));
+}
+// cont_ok survives a removal and a write of hash-named content
+proof fn lemma_cont_remove(s: Shards, fin: Shards, exists_: Set<VxPath>, content: Map<VxPath, Set<int>>, p: VxPath)
+    requires cont_ok(s, fin, exists_, content),
+    ensures cont_ok(s, fin, exists_.remove(p), content),
+{}
+proof fn lemma_cont_write(dir: VxPath, s: Shards, fin: Shards, exists_: Set<VxPath>, content: Map<VxPath, Set<int>>, f: Arc<MDBShardFile>)
+    requires inputs_wf(dir, s), cont_ok(s, fin, exists_, content), f.path == path_of(dir, f.shard_hash),
+        forall|k: int| 0 <= k < fin.len() ==> (#[trigger] fin[k]).path == path_of(dir, fin[k].shard_hash),
+    ensures cont_ok(s, fin.push(f), exists_.insert(f.path), content.insert(f.path, recs_of(f.shard_hash))),
+{
+    let c2 = content.insert(f.path, recs_of(f.shard_hash));
+    assert forall|i: int| 0 <= i < s.len() && exists_.insert(f.path).contains((#[trigger] s[i]).path) implies c2[s[i].path] == recs_of(s[i].shard_hash) by {
+        if s[i].path == f.path { axiom_path_of_injective(dir, s[i].shard_hash, f.shard_hash); }
+    }
+    assert forall|k: int| 0 <= k < fin.push(f).len() implies c2[(#[trigger] fin.push(f)[k]).path] == recs_of(fin.push(f)[k].shard_hash) by {
+        if k < fin.len() { assert(fin.push(f)[k] == fin[k]); if fin[k].path == f.path { axiom_path_of_injective(dir, fin[k].shard_hash, f.shard_hash); } }
+    }
 }
 
 // the records of the shard with hash `h` are all present in one returned shard
@@ -149,8 +190,11 @@ proof fn lemma_perm_wf(dir: VxPath, a: Shards, b: Shards, exists_: Set<VxPath>)
     requires loaded_wf(dir, a, exists_), b.len() == a.len(),
         forall|i: int| 0 <= i < a.len() ==> 0 <= #[trigger] sort_perm(a)[i] < a.len() && b[i] == a[sort_perm(a)[i]],
         forall|i: int, j: int| 0 <= i < j < a.len() ==> #[trigger] sort_perm(a)[i] != #[trigger] sort_perm(a)[j],
-    ensures loaded_wf(dir, b, exists_),
+    ensures loaded_wf(dir, b, exists_), forall|c: Map<VxPath, Set<int>>| loaded_content(a, c) ==> #[trigger] loaded_content(b, c),
 {
+    assert forall|c: Map<VxPath, Set<int>>| loaded_content(a, c) implies #[trigger] loaded_content(b, c) by {
+        assert forall|j: int| 0 <= j < b.len() implies c[(#[trigger] b[j]).path] == recs_of(b[j].shard_hash) by { let pj = sort_perm(a)[j]; assert(b[j] == a[pj]); }
+    }
     assert forall|i: int, j: int| 0 <= i < j < b.len() implies (#[trigger] b[i]).shard_hash != (#[trigger] b[j]).shard_hash by {
         let pi = sort_perm(a)[i]; let pj = sort_perm(a)[j];
         assert(b[i] == a[pi] && b[j] == a[pj]);
@@ -170,7 +214,7 @@ proof fn lemma_perm_wf(dir: VxPath, a: Shards, b: Shards, exists_: Set<VxPath>)
 //@ contract
     ensures
         // the loop starts from existing, hash-named, pairwise different files; with lemma_init this is the invariant at cur = 0
-        res matches Ok(v) ==> /*@C10*/ loaded_wf(*session_directory, v@, vx_fs.exists@),
+        res matches Ok(v) ==> /*@C10*/ loaded_wf(*session_directory, v@, vx_fs.exists@) && loaded_content(v@, vx_fs.content@),
 //@ after `vx_sort_by_mtime(&mut shards);`
     proof { lemma_perm_wf(*session_directory, pre_sort, shards@, vx_fs.exists@); }
 //@ before `vx_sort_by_mtime(&mut shards);`
@@ -183,19 +227,26 @@ proof fn lemma_perm_wf(dir: VxPath, a: Shards, b: Shards, exists_: Set<VxPath>)
 //@ sig `fn consolidate_group(session_directory: &VxPath, target_max_size: u64, shards: &Vec<Arc<MDBShardFile>>, finished_shards: &mut Vec<Arc<MDBShardFile>>, finished_shard_hashes: &mut HashSet<MerkleHash>, mut cur_data: Vec<u8>, mut alt_data: Vec<u8>, mut out_data: Vec<u8>, mut cur_idx: usize, vx_fs: &mut VxFs) -> (res: Result<usize>)`
 //@ epilogue `Ok(cur_idx)`
 //@ rules R4j R4i
-//@ subst `std::fs::File::open` => `vx_fs.open` :: R11 file-system stub with ghost state
-//@ subst `std::fs::remove_file` => `vx_fs.remove_file` :: R11 file-system stub with ghost state
-//@ subst `MDBShardFile::write_out_from_reader` => `vx_fs.write_out_from_reader` :: R11 shard I/O stub with ghost state
-//@ subst `Cursor::new` => `VxCursor::new` :: R11 reader stub with ghost view
-//@ subst `PathBuf` => `VxPath` :: R11 stub type for std::path::PathBuf
+//@ optsubst `std::fs::File::open` => `vx_fs.open` :: R11 file-system stub with ghost state
+//@ optsubst `std::fs::remove_file` => `vx_fs.remove_file` :: R11 file-system stub with ghost state
+//@ optsubst `MDBShardFile::write_out_from_reader` => `vx_fs.write_out_from_reader` :: R11 shard I/O stub with ghost state
+//@ optsubst `Cursor::new` => `VxCursor::new` :: R11 reader stub with ghost view
+//@ optsubst `PathBuf` => `VxPath` :: R11 stub type for std::path::PathBuf
 //@ contract
     requires
         inputs_wf(*session_directory, shards@),
         target_max_size <= 0x8000_0000_0000_0000,
         cur_idx < shards@.len(),
         inv(*session_directory, shards@, old(finished_shards)@, old(finished_shard_hashes)@, old(vx_fs).exists@, old(vx_fs).removed@, cur_idx as int),
+        cont_ok(shards@, old(finished_shards)@, old(vx_fs).exists@, old(vx_fs).content@),
+        // crash invariant at entry: what was retrievable when the operation started is on disk
+        /*@C19,C10*/ ci(*old(vx_fs)),
     ensures
+        // ... and at exit, on every path (it also holds between any two file-system operations: every mutating primitive
+        // requires and re-establishes it, and `remove_file` additionally requires the victim's records to be in another file)
+        /*@C19,C10*/ ci(*final(vx_fs)), final(vx_fs).need@ == old(vx_fs).need@,
         res matches Ok(n) ==> {
+            &&& cont_ok(shards@, final(finished_shards)@, final(vx_fs).exists@, final(vx_fs).content@)
             // (d) progress of the grouping loop
             &&& /*@C10*/ cur_idx < n <= shards@.len()
             // (a)(b)(c) the invariant is re-established for the longer prefix
@@ -203,7 +254,7 @@ proof fn lemma_perm_wf(dir: VxPath, a: Shards, b: Shards, exists_: Set<VxPath>)
         },
 //@ body-start
     proof { axiom_merklehash_key_model(); assert(shards@.len() == shards.len()); }
-    let ghost dir = *session_directory; let ghost s = shards@; let ghost fin0 = finished_shards@; let ghost removed0 = vx_fs.removed@; let ghost hs0 = finished_shard_hashes@; let ghost ex0 = vx_fs.exists@; let ghost cur = cur_idx as int;
+    let ghost dir = *session_directory; let ghost s = shards@; let ghost fin0 = finished_shards@; let ghost removed0 = vx_fs.removed@; let ghost hs0 = finished_shard_hashes@; let ghost ex0 = vx_fs.exists@; let ghost ct0 = vx_fs.content@; let ghost need0 = vx_fs.need@; let ghost cur = cur_idx as int;
 //@ loop 1
         invariant
             s == shards@, cur == cur_idx, inputs_wf(dir, s), cur_idx < s.len(), target_max_size <= 0x8000_0000_0000_0000,
@@ -214,17 +265,18 @@ proof fn lemma_perm_wf(dir: VxPath, a: Shards, b: Shards, exists_: Set<VxPath>)
                     invariant
                         s == shards@, cur == cur_idx, inputs_wf(dir, s), dir == *session_directory, cur_idx + 1 < ub_idx <= s.len(),
                         cur_idx + 1 <= i <= ub_idx,
-                        finished_shards@ == fin0, finished_shard_hashes@ == hs0, vx_fs.exists@ == ex0, vx_fs.removed@ == removed0,
+                        finished_shards@ == fin0, finished_shard_hashes@ == hs0, vx_fs.exists@ == ex0, vx_fs.content@ == ct0, vx_fs.need@ == need0, need0 == old(vx_fs).need@, ci(*vx_fs), cont_ok(s, fin0, ex0, ct0), vx_fs.removed@ == removed0,
                         forall|j: int| cur <= j < i ==> recs_of((#[trigger] s[j]).shard_hash).subset_of(data_recs(cur_data@)),
 //@ after `vx_fs.open(&cur_sfi.path)?.read_to_end(&mut cur_data)?;`
                 proof {
-                    assert(cur_sfi.path == path_of(dir, cur_sfi.shard_hash));
+                    assert(cur_sfi == s[cur] && vx_fs.exists@.contains(s[cur].path));
                     assert(cur_data@ =~= Seq::<u8>::empty() + cur_data@);
                     assert(data_recs(cur_data@) == recs_of(s[cur].shard_hash));
                 }
 //@ before `swap(&mut cur_data, &mut out_data);`
                     proof {
-                        assert(sfi.path == path_of(dir, sfi.shard_hash));
+                        assert(sfi == s[i as int] && vx_fs.exists@.contains(s[i as int].path));
+                        assert(alt_data@ =~= Seq::<u8>::empty() + alt_data@);
                         assert(data_recs(alt_data@) == recs_of(s[i as int].shard_hash));
                     }
 //@ after `finished_shards.push(cur_sfi.clone());`
@@ -233,10 +285,18 @@ proof fn lemma_perm_wf(dir: VxPath, a: Shards, b: Shards, exists_: Set<VxPath>)
                     lemma_covered_last(s[cur].shard_hash, finished_shards@);
                     assert forall|i2: int| 0 <= i2 < cur implies covered((#[trigger] s[i2]).shard_hash, finished_shards@) by { lemma_covered_push(s[i2].shard_hash, fin0, finished_shards@.last()); }
                     assert(mid(dir, s, finished_shards@, finished_shard_hashes@, vx_fs.exists@, vx_fs.removed@, cur, ub_idx as int, removed0));
+                    assert(cont_ok(s, finished_shards@, vx_fs.exists@, vx_fs.content@)) by {
+                        assert forall|k: int| 0 <= k < finished_shards@.len() implies vx_fs.content@[(#[trigger] finished_shards@[k]).path] == recs_of(finished_shards@[k].shard_hash) by {
+                            if k < fin0.len() { assert(finished_shards@[k] == fin0[k]); } else { assert(finished_shards@[k] == s[cur]); }
+                        }
+                    }
                 }
 //@ after `finished_shards.push(new_sfi);`
                 proof {
                     let f = finished_shards@.last();
+                    lemma_cont_write(dir, s, fin0, ex0, ct0, f);
+                    assert(finished_shards@ =~= fin0.push(f));
+                    assert(cont_ok(s, finished_shards@, vx_fs.exists@, vx_fs.content@));
                     assert forall|i2: int| 0 <= i2 < ub_idx implies covered((#[trigger] s[i2]).shard_hash, finished_shards@) by {
                         if i2 < cur { lemma_covered_push(s[i2].shard_hash, fin0, f); } else { lemma_covered_last(s[i2].shard_hash, finished_shards@); }
                     }
@@ -249,14 +309,17 @@ proof fn lemma_perm_wf(dir: VxPath, a: Shards, b: Shards, exists_: Set<VxPath>)
                     }
                     assert(mid(dir, s, finished_shards@, finished_shard_hashes@, vx_fs.exists@, vx_fs.removed@, cur, ub_idx as int, removed0));
                 }
-//@ loop 3
+//@ after `while vx_n1 < vx_s1.len()`
                     invariant
+                        /*@C19,C10*/ ci(*vx_fs), vx_fs.need@ == need0, need0 == old(vx_fs).need@,
+//@ after `vx_n1 < vx_s1.len()`
                         s == shards@, cur == cur_idx, cur_idx < ub_idx <= s.len(),
                         vx_s1@ == s.subrange(cur, ub_idx as int), vx_n1 <= vx_s1@.len(),
                         shards_to_remove@.len() == vx_n1,
                         forall|m: int| 0 <= m < vx_n1 ==> #[trigger] shards_to_remove@[m] == (s[cur + m].shard_hash, s[cur + m].path),
+//@ after `< vx_s1.len()`
                     decreases vx_s1@.len() - vx_n1,
-//@ loop 4
+//@ after `while vx_n2 < vx_s2.len()`
                 invariant
                     s == shards@, cur == cur_idx, dir == *session_directory, inputs_wf(dir, s), vx_s2@ == shards_to_remove@, vx_n2 <= vx_s2@.len(),
                     vstd::std_specs::hash::obeys_key_model::<MerkleHash>(),
@@ -264,12 +327,16 @@ proof fn lemma_perm_wf(dir: VxPath, a: Shards, b: Shards, exists_: Set<VxPath>)
                     forall|m: int| 0 <= m < vx_n2 ==> gone_or_returned(#[trigger] s[cur + m], finished_shard_hashes@, vx_fs.exists@),
                     forall|m: int| 0 <= m < shards_to_remove@.len() ==> #[trigger] shards_to_remove@[m] == (s[cur + m].shard_hash, s[cur + m].path),
                     mid(dir, s, finished_shards@, finished_shard_hashes@, vx_fs.exists@, vx_fs.removed@, cur, ub_idx as int, removed0),
+                    cont_ok(s, finished_shards@, vx_fs.exists@, vx_fs.content@), /*@C19,C10*/ ci(*vx_fs), vx_fs.need@ == need0, need0 == old(vx_fs).need@,
+//@ after `vx_n2 < vx_s2.len()`
                 decreases vx_s2@.len() - vx_n2,
 //@ before `vx_fs.remove_file(path)?;`
                 proof {
                     let g = cur + vx_n2 - 1;
                     assert(shards_to_remove@[vx_n2 - 1] == (s[g].shard_hash, s[g].path));
                     lemma_remove_step(dir, s, finished_shards@, finished_shard_hashes@, vx_fs.exists@, vx_fs.removed@, cur, ub_idx as int, removed0, g);
+                    if vx_fs.exists@.contains(s[g].path) { lemma_remove_pre(dir, s, finished_shards@, finished_shard_hashes@, *vx_fs, cur, ub_idx as int, removed0, g); }
+                    lemma_cont_remove(s, finished_shards@, vx_fs.exists@, vx_fs.content@, s[g].path);
                     assert forall|m: int| 0 <= m < vx_n2 implies gone_or_returned(#[trigger] s[cur + m], finished_shard_hashes@, vx_fs.exists@.remove(s[g].path)) by {
                         if m < vx_n2 - 1 { assert(gone_or_returned(s[cur + m], finished_shard_hashes@, vx_fs.exists@)); }
                     }
@@ -287,8 +354,9 @@ proof fn lemma_perm_wf(dir: VxPath, a: Shards, b: Shards, exists_: Set<VxPath>)
 // two extracted regions chain (invariant initially, preserved, variant decreases) and give C10's clauses at exit; the two
 // `with_capacity` buffers are scratch (cleared before every use) and are passed fresh.
 fn vx_glue_consolidate(session_directory: &VxPath, target_max_size: u64, vx_fs: &mut VxFs) -> (res: Result<(Vec<Arc<MDBShardFile>>, Ghost<Shards>)>)
-    requires target_max_size <= 0x8000_0000_0000_0000, old(vx_fs).removed@ == Set::<VxPath>::empty(),
-    ensures res matches Ok((fin, inputs)) ==> {
+    requires target_max_size <= 0x8000_0000_0000_0000, old(vx_fs).removed@ == Set::<VxPath>::empty(), ci(*old(vx_fs)),
+    ensures /*@C19,C10*/ ci(*final(vx_fs)), final(vx_fs).need@ == old(vx_fs).need@,
+      res matches Ok((fin, inputs)) ==> {
         let dir = *session_directory; let s = inputs@; let ex = final(vx_fs).exists@; let rm = final(vx_fs).removed@;
         &&& loaded_wf(dir, s, old(vx_fs).exists@)
         // (a) returns only shard files that exist, named by their content hash
@@ -303,11 +371,12 @@ fn vx_glue_consolidate(session_directory: &VxPath, target_max_size: u64, vx_fs: 
     let mut finished_shards = Vec::<Arc<MDBShardFile>>::with_capacity(shards.len());
     let mut finished_shard_hashes = HashSet::<MerkleHash>::with_capacity(shards.len());
     let mut cur_idx = 0;
-    proof { lemma_init(*session_directory, shards@, finished_shard_hashes@, vx_fs.exists@); assert(finished_shards@ =~= Seq::empty()); }
+    proof { lemma_init(*session_directory, shards@, finished_shard_hashes@, vx_fs.exists@); assert(finished_shards@ =~= Seq::empty()); assert(cont_ok(shards@, finished_shards@, vx_fs.exists@, vx_fs.content@)); }
     while cur_idx < shards.len()
         invariant
             target_max_size <= 0x8000_0000_0000_0000, inputs_wf(*session_directory, shards@),
             inv(*session_directory, shards@, finished_shards@, finished_shard_hashes@, vx_fs.exists@, vx_fs.removed@, cur_idx as int),
+            cont_ok(shards@, finished_shards@, vx_fs.exists@, vx_fs.content@), ci(*vx_fs), vx_fs.need@ == old(vx_fs).need@,
         decreases shards@.len() - cur_idx,
     {
         cur_idx = consolidate_group(session_directory, target_max_size, &shards, &mut finished_shards, &mut finished_shard_hashes, Vec::new(), Vec::new(), Vec::new(), cur_idx, vx_fs)?;
